@@ -16,3 +16,6 @@ prop(
     trusted=[],
     not_decided=[],
 )
+
+for _p in ("C01", "C02", "C03", "C05", "C06", "C09", "C10", "C11", "C14", "C15", "C16", "C19"):
+    prop(_p, level="proof", explanation="", trusted=[], not_decided=[])
